@@ -61,8 +61,13 @@ pub fn apply_model(m: &mut RefStore, op: Op, val_tag: &str, key_len: usize) -> E
         }
         Op::Fsync => Expect::Res(Res::Ok),
         Op::Tick => {
-            m.dump_closed();
+            m.tick();
             Expect::Done
+        }
+        Op::DamageRst => {
+            m.quarantine_highest();
+            m.restart(false);
+            Expect::Res(Res::Ok)
         }
         Op::Rst => {
             m.restart(false);
